@@ -16,7 +16,7 @@ with tempfile.TemporaryDirectory() as d:
     out = os.path.join(d, "r.xml")
     p = subprocess.run(["/venv/bin/python", "-m", "pytest", "-ra", "-q", "-p", "no:cacheprovider", "--timeout=900",
                         "--continue-on-collection-errors", "--junitxml=" + out], cwd=repo, env=env,
-                       stdout=subprocess.PIPE, stderr=subprocess.STDOUT, text=True)
+                       stdout=subprocess.PIPE, stderr=subprocess.STDOUT, text=True, timeout=int(os.environ.get("BASELINE_TIMEOUT", "2400")))
     passed = set()
     for tc in ET.parse(out).getroot().iter("testcase"):
         if not any(ch.tag in ("failure", "error", "skipped") for ch in tc):
